@@ -70,14 +70,14 @@ theorem fs_openFile_agrees (fs : Fs) (p : Path) (m : Mode) (hp : p ≠ []) (hpar
       | file c => simp [Fs.openFile, Mode.toNat, hp, h, openFile, BytesIO.ofBytes, BytesIO.seekEnd]
   | rpb =>
     cases h : fs.lookup p with
-    | none => simp [Fs.openFile, Mode.toNat, hp, h, hpar, openFile, BytesIO.ofBytes]
+    | none => simp [Fs.openFile, Mode.toNat, hp, h, openFile]
     | some e => cases e with
       | dir => exact absurd h hnd
       | file c => simp [Fs.openFile, Mode.toNat, hp, h, openFile, BytesIO.ofBytes]
 
-theorem openFile_memory_ne_none (old : Option Bytes) (m : Mode) (hm : m ≠ .rb) :
-    openFile .memory old m ≠ none := by
-  cases m <;> cases old <;> simp [openFile] at hm ⊢
+theorem openFile_memory_ne_none (old : Option Bytes) (m : Mode) (hm : m ≠ .rb)
+    (hex : m = .rpb → old ≠ none) : openFile .memory old m ≠ none := by
+  cases m <;> cases old <;> simp [openFile] at hm hex ⊢
 
 set_option linter.unusedSimpArgs false in
 /-- **the session model's STOR/APPE step stores what `storResult` says**, for every valid chunking of the payload
@@ -85,7 +85,7 @@ set_option linter.unusedSimpArgs false in
 theorem worker_stor_agrees (k : Nat) (w : World) (s : SState) (p : Path) (v : UpVerb) (payload : Bytes)
     (reads : List Bytes) (hreads : (iterByBlock reads).flatten = payload)
     (hdc : s.dataConn = true) (hp : p ≠ []) (hpar : w.fs.isDir p.dropLast = true)
-    (hnd : w.fs.lookup p ≠ some .dir) :
+    (hnd : w.fs.lookup p ≠ some .dir) (hex : k ≠ 0 → oldAt w.fs p ≠ none) :
     oldAt (workerK k w s p v.toVerb payload).1.fs p
       = storResult .memory (oldAt w.fs p) v k reads
     ∧ (workerK k w s p v.toVerb payload).2.2.replies = [226] := by
@@ -100,10 +100,15 @@ theorem worker_stor_agrees (k : Nat) (w : World) (s : SState) (p : Path) (v : Up
   rw [← hopen]
   cases ho : w.fs.openFile p (fileMode v.mode k).toNat with
   | none =>
-    -- with a directory parent and a non-directory target `MemoryPathIO._open` never fails
+    -- with a directory parent, a non-directory target and (for a restart) an existing file `_open` never fails
     exfalso
     rw [ho] at hopen
-    exact openFile_memory_ne_none _ _ hm hopen.symm
+    refine openFile_memory_ne_none _ _ hm ?_ hopen.symm
+    intro hr
+    apply hex
+    intro hk
+    unfold fileMode at hr
+    cases v <;> simp [hk, UpVerb.mode] at hr
   | some r =>
     obtain ⟨fs', c, pos⟩ := r
     have hw : workerK k w s p v.toVerb payload =
